@@ -813,7 +813,9 @@ def _make_record(r, fam):
             a = int(r.integers(1, n - 1))
             t[a] = t[a - 1]                                # repeated stamp, distinct ids
     y = ids.copy()
-    if fam in ("dropouts", "mix"):
+    if fam in ("dropouts", "mix") or (fam == "unsorted" and r.random() < 0.5):
+        # (with 'unsorted': drop-outs whose position after time-sorting differs from
+        # their position in the record as delivered)
         kind = int(r.integers(3))
         dropval = [-1.40130e-45, -999.0, 1.0e20][int(r.integers(3))]
         nd = int(r.integers(1, max(2, n // 6)))
